@@ -2,12 +2,13 @@
 # tools/confirm_mutant.sh <seeded dir>...  - confirm each seeded change: demo passes without it, fails with it,
 # and the repository's complete test-suite still passes with it.  Writes <dir>/confirm.json.
 for d in "$@"; do
+  d=$(readlink -f "$d")
   [ -f "$d/confirm.json" ] && continue
   wt=$(mktemp -d /tmp/cm_XXXX)
   git -C /repo worktree add -q --detach "$wt" HEAD || continue
-  ( cd "$wt"; PYTHONPATH="$wt" /venv/bin/python "$OLDPWD/$d/demo.py" >/dev/null 2>&1 ); clean=$?
+  ( cd "$wt"; PYTHONPATH="$wt" /venv/bin/python "$d/demo.py" >/dev/null 2>&1 ); clean=$?
   if git -C "$wt" apply "$d/patch.diff"; then applies=true; else applies=false; fi
-  ( cd "$wt"; PYTHONPATH="$wt" /venv/bin/python "$OLDPWD/$d/demo.py" >/dev/null 2>&1 ); mutated=$?
+  ( cd "$wt"; PYTHONPATH="$wt" /venv/bin/python "$d/demo.py" >/dev/null 2>&1 ); mutated=$?
   tests=$(cd "$wt" && env -u SYMPLYPHYSICS_VERIF /venv/bin/python -m pytest -q -p no:cacheprovider -n 8 2>&1 | tail -1)
   head=$(git -C /repo rev-parse --short HEAD)
   printf '{"repo_head": "%s", "patch_applies": %s, "demo_exit_without_change": %s, "demo_exit_with_change": %s, "test_suite_with_change": "%s"}\n' \
